@@ -297,14 +297,27 @@ POLY_CLASSES = ["triangle", "rectangle", "quad", "convex", "star", "monotone", "
 POLY_WEIGHTS = [0.14, 0.12, 0.1, 0.16, 0.16, 0.12, 0.1, 0.1]
 
 
-def gen_polygon(rng, cls=None):
-    """returns (cls, [[r, z], ...]) certified simple, or a fallback triangle after 60 rejected candidates"""
+def gen_polygon(rng, cls=None, wide=False):
+    """returns (cls, [[r, z], ...]) certified simple, or a fallback triangle after 60 rejected candidates.
+    wide=True: 'any radius and height' -- half-extent log-uniform 1e-8..1e3 m, centre radius log-uniform 1e-6..1e4 m,
+    height uniform in +-5 m, or within a few extents of the midplane, or up to +-1e3 m."""
     if cls is None:
         cls = POLY_CLASSES[int(rng.choice(len(POLY_CLASSES), p=POLY_WEIGHTS))]
     for _ in range(60):
-        Rc = float(10 ** rng.uniform(-1, 1))
-        Zc = float(rng.uniform(-5, 5))
-        size = float(min(10 ** rng.uniform(-3, 0.3), 0.9 * Rc))
+        if wide:
+            Rc = float(10 ** rng.uniform(-6, 4))
+            size = float(min(10 ** rng.uniform(-8, 3), 0.9 * Rc))
+            zm = rng.random()
+            if zm < 0.4:
+                Zc = float(rng.uniform(-5, 5))
+            elif zm < 0.8:
+                Zc = float(size * rng.uniform(-2, 2))
+            else:
+                Zc = float(10 ** rng.uniform(0, 3) * (1 if rng.random() < 0.5 else -1))
+        else:
+            Rc = float(10 ** rng.uniform(-1, 1))
+            Zc = float(rng.uniform(-5, 5))
+            size = float(min(10 ** rng.uniform(-3, 0.3), 0.9 * Rc))
         if cls == "sliver":
             base = ["triangle", "rectangle", "convex", "quad"][int(rng.integers(4))]
             U = np.array(_unit_shape(rng, base), dtype=float)
@@ -342,21 +355,55 @@ def _mesh_ok(P):
     return w > 0 and 2 * math.pi * (sum(r) / len(r)) / w <= 150
 
 
+MAX_ORDERINGS_QUICK = 16
+
+
 def gen_case(rng, tier):
     u = rng.random()
-    if u < 0.45:
+    if u < 0.34:
         cls, P = gen_polygon(rng)
         prim = "mesh" if (rng.random() < 0.12 and _mesh_ok(P)) else "csg"
-        return dict(kind="poly", cls=cls, poly=P, prim=prim)
+        return dict(kind="poly", cls=cls, poly=P, prim=prim, max_orderings=MAX_ORDERINGS_QUICK if tier == "quick" else 0)
+    if u < 0.40:
+        cls, P = gen_polygon(rng, wide=True)
+        return dict(kind="poly", cls="wide:" + cls, poly=P, prim="csg", max_orderings=8 if tier == "quick" else 0)
+    if u < 0.47:
+        return _gen_scale(rng, tier)
     if u < 0.53:
         return _gen_grid(rng, tier)
-    if u < 0.79:
+    if u < 0.70:
         return _gen_emis(rng, tier)
+    if u < 0.80:
+        return _gen_emisorder(rng, tier)
     if u < 0.86:
         return _gen_nearrect(rng, tier)
     if u < 0.94:
         return _gen_alias(rng, tier)
     return _gen_gridseq(rng, tier)
+
+
+def _gen_scale(rng, tier):
+    """power-of-two scalings about the origin: every quantity the code computes is homogeneous, so the results must
+    scale exactly (area 4^k, centroid 2^k, volume 8^k) -- from nanometre to 1000 km cross-sections"""
+    cells = [gen_polygon(rng)[1] for _ in range(int(rng.integers(1, 5)))]
+    exps = sorted(set(int(e) for e in rng.integers(-40, 21, size=3)) - {0})
+    if not exps:
+        exps = [-25]
+    return dict(kind="scale", cls="scale", cells=cells, exps=exps, prim="csg")
+
+
+def _gen_emisorder(rng, tier):
+    """the same polygon sampled through both primitive types, both orientations and several starting vertices"""
+    cls = ["star", "monotone", "rectilinear", "quad", "convex", "sliver", "triangle"][
+        int(rng.choice(7, p=[0.25, 0.25, 0.2, 0.1, 0.1, 0.05, 0.05]))]
+    cls, P = gen_polygon(rng, cls)
+    n = len(P)
+    starts = sorted(set([0] + [int(x) for x in rng.integers(0, n, size=2)]))
+    prims = ["csg", "mesh"] if _mesh_ok(P) else ["csg"]
+    return dict(kind="emisorder", cls=cls, poly=P, prims=prims, starts=starts,
+                fn=dict(a=float(rng.normal()), b=float(rng.normal()), c=float(rng.normal())) if rng.random() < 0.7
+                else dict(a=0.0, b=1.0, c=0.0),
+                N=int(rng.choice([20000, 50000])), Np=int(rng.choice([300, 1500])), rs_seed=int(rng.integers(1, 2 ** 61)))
 
 
 # -- quadrilaterals that are near-misses of AxisymmetricVoxel._has_rectangular_cross_section ------------------------
@@ -464,7 +511,8 @@ def _gen_nearrect(rng, tier):
         fn = dict(a=0.0, b=1.0, c=0.0)                  # f = r
     else:
         fn = dict(a=float(rng.normal()), b=float(rng.normal()), c=float(rng.normal()))
-    return dict(kind="nearrect", cls=shape, poly=P, prim="csg", fn=fn, N=int(rng.choice([20000, 100000])),
+    prim = "mesh" if (rng.random() < 0.3 and _mesh_ok(P)) else "csg"
+    return dict(kind="nearrect", cls=shape, poly=P, prim=prim, fn=fn, N=int(rng.choice([20000, 100000])),
                 Np=int(rng.choice([500, 3000])), rs_seed=int(rng.integers(1, 2 ** 61)))
 
 
@@ -604,7 +652,8 @@ def _gen_emis(rng, tier):
     else:
         N = int(rng.choice([-1, 500, 20000], p=[0.1, 0.2, 0.7]))
         fn = dict(type="linear_python", **_lin_coeffs(rng))
-    return dict(kind="emis", cls=cls, poly=P, prim="csg", fn=fn, N=N, rs_seed=int(rng.integers(1, 2 ** 62)))
+    prim = "mesh" if (rng.random() < 0.3 and _mesh_ok(P)) else "csg"
+    return dict(kind="emis", cls=cls, poly=P, prim=prim, fn=fn, N=N, rs_seed=int(rng.integers(1, 2 ** 62)))
 
 
 def _lin_coeffs(rng):
@@ -836,6 +885,10 @@ def run_case(case, ctx):
         return _run_alias_grid(case, ctx) if case.get("mode") == "grid" else _run_alias(case, ctx)
     if kind == "gridseq":
         return _run_gridseq(case, ctx)
+    if kind == "scale":
+        return _run_scale(case, ctx)
+    if kind == "emisorder":
+        return _run_nearrect(case, ctx, general=True)
     raise ValueError("unknown case kind %r" % kind)
 
 
@@ -850,6 +903,43 @@ def _certified(P, ctx):
     return True
 
 
+MAX_REL_BOUND = 1e-3
+
+
+def _observe(v, ctx, **det):
+    """(area, centroid r, centroid z, volume) of a voxel built from a certified (non-zero-area) polygon; a
+    ZeroDivisionError is the documented reaction to a ZERO-area cross-section only, so here it is a violation"""
+    try:
+        c = v.cross_section_centroid
+    except ZeroDivisionError as e:
+        ctx.viol("centroid:zero-division-for-non-degenerate-polygon",
+                 "cross_section_centroid raised ZeroDivisionError for a simple polygon of non-zero area: %s" % e,
+                 area_reported=float(v.cross_sectional_area), volume_reported=float(v.volume), **det)
+        return None
+    return (float(v.cross_sectional_area), float(c.x), float(c.y), float(v.volume))
+
+
+def _well_conditioned(tb, ex, ctx):
+    """the double-precision shoelace / Bourke sums about the coordinate origin lose ~eps*R*|z|/area: when the computed
+    worst-case bound exceeds 1e-3 (relative to area, to the centroid radius, or to the polygon extent for the centroid
+    height) the statement 'equal' is undecidable at double precision for this input -> skipped and counted"""
+    A, cx = float(ex["A"]), float(ex["cx"])
+    if tb["A"] > MAX_REL_BOUND * A or tb["cx"] > MAX_REL_BOUND * abs(cx) or tb["vol"] > MAX_REL_BOUND * abs(tb["volume"]):
+        ctx.skip("rounding bound of the double-precision shoelace sums exceeds 1e-3 (tiny cross-section far from the origin)")
+        return False
+    return True
+
+
+def _orderings(P, cap):
+    """all rotations x both orientations; cap > 0: at most cap of them, evenly spaced start vertices (quick tier)"""
+    n = len(P)
+    starts = list(range(n))
+    if cap and 2 * n > cap:
+        m = max(1, cap // 2)
+        starts = sorted(set(int(round(i * n / m)) % n for i in range(m)))
+    return [(s0, rev) for rev in (False, True) for s0 in starts]
+
+
 def _run_poly(case, ctx):
     P = [[float(a), float(b)] for a, b in case["poly"]]
     prim = case.get("prim", "csg")
@@ -859,20 +949,23 @@ def _run_poly(case, ctx):
         return
     ex = exact_moments(P)
     tb = rounding_bounds(P, ex)
+    if not _well_conditioned(tb, ex, ctx):
+        return
     A, cx, cy = float(ex["A"]), float(ex["cx"]), float(ex["cy"])
     n = len(P)
     res = {"cw": [], "ccw": []}
     vtypes = ("list", "array", "point2d")
     k = 0
-    for rev in (False, True):
+    for s, rev in _orderings(P, int(case.get("max_orderings", 0) or 0)):
         base = P[::-1] if rev else P
         orient = "ccw" if (ex["ccw"] != rev) else "cw"
-        for s in range(n):
-            Q = base[s:] + base[:s]
-            v = _mk_voxel(Q, prim, vtypes[k % 3])
-            k += 1
-            c = v.cross_section_centroid
-            res[orient].append((v.cross_sectional_area, c.x, c.y, v.volume))
+        Q = base[s:] + base[:s]
+        v = _mk_voxel(Q, prim, vtypes[k % 3])
+        k += 1
+        ob = _observe(v, ctx, n_vertices=n, orientation_given=orient, prim=prim)
+        if ob is None:
+            return
+        res[orient].append(ob)
     ctx.nontrivial()
     allr = []
     for orient, rows in res.items():
